@@ -18,6 +18,7 @@ type CompObs struct {
 	T2S     string
 	GenSame string // implementation only: same | diff:<hex> | na
 	EmitErr string
+	Chk     string // model only: S/s = source runs pairwise disjoint or not, T/t = target runs
 }
 
 type entry struct{ a, b, c, d int }
@@ -170,6 +171,9 @@ func parseModelReply(r proc.Reply) CompObs {
 	o.S2T, o.T2S = tablesFromLog(strings.TrimSuffix(f[3], "X"))
 	if f[4] != "-" {
 		o.EmitErr = "COMPOSEERR"
+	}
+	if len(f) > 5 {
+		o.Chk = f[5]
 	}
 	return o
 }
